@@ -927,7 +927,7 @@ def gen(tier, rng):
     # a smaller pool for the longest histories: the calls that write some cell, and the probes that read it
     core_pool = [o for o in full if not o[0] and o[1] != 7]
     if tier == 'quick':
-        plan = [(1, full, 1), (2, full, 1), (3, core_pool, 1)]
+        plan = [(1, full, 1), (2, full, 1), (3, core_pool, 2)]
     else:
         plan = [(1, full, 1), (2, full, 1), (3, full, 1), (4, core_pool, 7)]
     for n, pool, stride in plan:
@@ -980,10 +980,11 @@ def gen(tier, rng):
     # ---- fn 2: random histories
     for i in range(500 if tier == 'quick' else 6000):
         cap = rng.choice([1, 2, 3, 4, 8, 0])
-        yield ('history_random', 2, [cap, rand_history(rng, rng.choice([3, 6, 10, 16, 24] if tier == 'quick' else [3, 6, 10, 20, 40]))])
+        yield ('history_random', 2, [cap, rand_history(rng, rng.choice([3, 5, 8, 12, 16] if tier == 'quick' else [3, 6, 10, 20, 40]))])
 
 RULE = ('fn 1 (memoize): every key sequence up to the length bound over 4 keys (two returning, one raising a pybtex error, one raising a foreign exception) x capacities 0..3, plus random runs up to capacity 1024 with more distinct keys than the capacity; '
-        'fn 2 (API histories): pinned defect inputs, a history with 1100 fresh format.name$ calls at the shipped capacity, every history of length <= 2 over a menu of 20 calls (keyless and person_fields readers included) (incl. two opaque writer/engine calls; each also inside errors.capture(), plus set_strict_mode on/off; 41 in all) and of length 3 (thorough: also every seventh one of length 4) over the 20 of them that are neither capture() variants nor opaque, cache capacity 2 (thorough: length 3 over all 41), a stream where an earlier reader defines/redefines macros through each of the 7 parse entry points (and a live reader, and LowLevelParser) before independent probe parses through each entry point, and random histories up to length 24 (thorough: 40); every self-contained call is also re-run alone in a reset process state. '
+        'fn 2 (API histories): pinned defect inputs, a history with 1100 fresh format.name$ calls at the shipped capacity, every history of length <= 2 over a menu of 20 calls (keyless and person_fields readers included) (incl. two opaque writer/engine calls; each also inside errors.capture(), plus set_strict_mode on/off; 41 in all) and every second one of length 3 (thorough: all, and every seventh one of length 4) over the 20 of them that are neither capture() variants nor opaque, cache capacity 2 (thorough: length 3 over all 41), a stream where an earlier reader defines/redefines macros through each of the 7 parse entry points (and a live reader, and LowLevelParser) before independent probe parses through each entry point, and random histories up to length 16 (thorough: 40); every self-contained call is also re-run alone in a reset process state. '
+        'fn 3 (real engines as ordinary cases): 188 calls = Python engine x {unsrt, plain, alpha, unsrtalpha} x 5 option sets (back ends latex/html/text/markdown, abbreviate_names, name/label/sorting styles) x 4 databases (duplicate alpha labels; one entry type with different editor/author/field patterns; cross-references; missing required fields = failing runs), also inside capture(); BibTeX engine x the 7 shipped .bst; writers 3 formats x {str, utf-8, latin-1, ascii}; readers; each selected call twice, after the same style on another database, and in mixed histories (quick: a rotating selection, thorough: all); every result compared with the same call in its own forked child of a pristine interpreter under another hash seed. '
         'distinct = distinct (function, argument); non-trivial = more distinct keys than the capacity (fn 1) / at least two kinds of call (fn 2)')
 EXHAUSTIVE = {'quick': 'memoize: all key sequences of length <= 6 over 4 keys x capacities 0..3; API histories: all sequences of length <= 2 over the 41-call menu, all of length 3 over its 20-call core (the calls outside capture())',
               'thorough': 'memoize: all key sequences of length <= 7 over 4 keys x capacities 0..3; API histories: all sequences of length <= 3 over the 41-call menu, every seventh one of length 4 over its 20-call core (the calls outside capture())'}
@@ -1352,9 +1353,10 @@ def extra_checks(ck, tier, rng):
     # 2. end-to-end histories
     names = list(REAL_CALLS)
     jobs = []
-    for p in REAL_PROBES:                     # every call followed by every probe; every ordered pair before a probe (thorough)
-        for a in names:
-            jobs.append(([a], p))
+    for pi, p in enumerate(REAL_PROBES):      # every call followed by every probe (quick: every second pair); every ordered pair before a probe (thorough)
+        for ai, a in enumerate(names):
+            if tier == 'thorough' or (pi + ai) % 2 == 0:
+                jobs.append(([a], p))
     if tier == 'thorough':
         for p in REAL_PROBES[::2]:
             for a in names:
@@ -1467,3 +1469,230 @@ def _sig_f19(kind, fn, arg, detail):
         return fn == 'f19_public_api' and isinstance(detail, str) and detail.startswith('F19-shape')
     return _old_sig(kind, fn, arg, detail)
 KNOWN_SIGNATURES['F19'] = _sig_f19
+
+# ========================================================================================
+# fn 3: the real engines as ordinary cases.  arg = a list of call ids (indices into ENGINE_CALLS); the wrapper runs
+# them in order in the worker's process and returns [id, digest of (output or exception, reports, warnings)] each.
+# The property: a repeated call gives byte-identical output and identical reports, in this process, whatever ran
+# before, and in a fresh interpreter (one forked child of a pristine interpreter per call, another hash seed).
+E_DUP = r'''@article{knuth84a, author = {Donald E. Knuth}, title = {Literate Programming}, journal = {The Computer Journal}, year = 1984, volume = 27, number = 2, pages = {97--111}}
+@book{knuth84b, author = {Knuth, Donald E.}, title = {The {\TeX}book}, publisher = {Addison-Wesley}, year = 1984}
+@misc{knuth84c, author = {D. E. Knuth}, title = {A torture test for {\TeX}}, year = 1984, note = {Stanford report}}
+@article{lamport86, author = {Leslie Lamport and Ann Lee}, title = {Document Production}, journal = {TUGboat}, year = 1986}
+@article{knuth84d, author = {Donald E. Knuth}, title = {The complexity of songs}, journal = {Commun. ACM}, year = 1984, month = apr}
+'''
+E_PAT = r'''@book{two-eds, editor = {Ann Lee and Bob Ray}, title = {Edited by Two}, publisher = {P}, year = 2001}
+@book{one-ed, editor = {Carl Moe}, title = {Edited by One}, publisher = {P}, year = 2002, volume = 3, series = {S}}
+@book{authored, author = {Dora Noe}, title = {Authored}, publisher = {Q}, year = 2003, edition = {Second}}
+@proceedings{proc-ed, editor = {Ed Itor}, title = {Proceedings With Editor}, year = 2004, publisher = {ACM}}
+@proceedings{proc-noed, title = {Proceedings Without Editor}, year = 2005, organization = {Org}}
+@article{art-full, author = {Fay Poe and Gus Roe and Hal Soe}, title = {Full Article}, journal = {J}, year = 2006, volume = 1, number = 2, pages = {3--4}, month = jan}
+@article{art-min, author = {Ida Toe}, title = {Minimal article}, journal = {J}, year = 2007}
+@inbook{inb, author = {Jo Voe}, title = {In a Book}, chapter = 5, publisher = {R}, year = 2008, pages = 10}
+@techreport{tr, author = {Kay Woe}, title = {A Report}, institution = {Inst}, year = 2009, number = 7}
+@phdthesis{phd, author = {Lou Xoe}, title = {A Thesis}, school = {Univ}, year = 2010, url = {http://example.org/x}}
+'''
+E_XREF = r'''@inproceedings{ip1, author = {Mia Yoe}, title = {First Paper}, crossref = {conf}, pages = {1--2}}
+@inproceedings{ip2, author = {Ned Zoe and Mia Yoe}, title = {Second Paper}, crossref = {conf}, pages = {3--4}}
+@proceedings{conf, editor = {Ola Abe}, title = {The Conference}, booktitle = {Proc. of the Conference}, year = 2011, publisher = {ACM}}
+@incollection{ic, author = {Pia Bee}, title = {A Chapter}, crossref = {coll}}
+@book{coll, editor = {Quin Cee and Ria Dee}, title = {The Collection}, booktitle = {The Collection}, publisher = {S}, year = 2012}
+'''
+E_MISSING = r'''@article{nojournal, author = {Sam Eee}, title = {No journal}, year = 2013}
+@book{nopublisher, author = {Tia Fee}, title = {No publisher}, year = 2014}
+@proceedings{noyear, title = {No year}}
+@misc{empty}
+'''
+ENGINE_DBS = [('dup', E_DUP), ('patterns', E_PAT), ('xref', E_XREF), ('missing', E_MISSING)]
+PY_STYLES = ['unsrt', 'plain', 'alpha', 'unsrtalpha']
+PY_VARIANTS = [('latex', {}), ('html', {'abbreviate_names': True}), ('text', {'name_style': 'lastfirst', 'sorting_style': 'none'}),
+               ('markdown', {'label_style': 'alpha', 'sorting_style': 'author_year_title'}), ('latex', {'label_style': 'number', 'name_style': 'plain'})]
+BSTS = ['plain', 'unsrt', 'alpha', 'unsrt_mixed', 'IEEEtran', 'apacite', 'jurabib']
+
+def _bst_dir():
+    for d in (os.path.join(REPO, 'tests', 'data'), '/repo/tests/data'):
+        if os.path.exists(os.path.join(d, 'plain.bst')):
+            return d
+    return None
+
+def _engine_calls():
+    calls = []
+    for dn, _ in ENGINE_DBS:
+        for st in PY_STYLES:
+            for vi, (be, kw) in enumerate(PY_VARIANTS):
+                calls.append(('py', dn, st, vi, 0))
+        for st in PY_STYLES:
+            calls.append(('py', dn, st, 0, 1))              # the same inside errors.capture(): reports are part of the result
+    for dn, _ in ENGINE_DBS:
+        for b in BSTS:
+            calls.append(('bst', dn, b, 0, 1))
+        calls.append(('bst', dn, 'plain', 0, 0))
+    for dn, _ in ENGINE_DBS:
+        for fmt in ('bibtex', 'yaml', 'bibtexml'):
+            calls.append(('write', dn, fmt, None, 0))
+            for enc in ('utf-8', 'latin-1', 'ascii'):
+                calls.append(('write', dn, fmt, enc, 0))
+            calls.append(('read', dn, fmt, None, 0))
+    return calls
+ENGINE_CALLS = _engine_calls()
+
+def _engine_run(cid):
+    import pybtex, pybtex.bibtex, pybtex.errors as E, pybtex.io
+    from pybtex.database import parse_string
+    kind, dn, a, b, cap = ENGINE_CALLS[cid % len(ENGINE_CALLS)]
+    text = dict(ENGINE_DBS)[dn]
+    def body():
+        if kind == 'py':
+            be, kw = PY_VARIANTS[b]
+            return pybtex.format_from_string(text, style=a, output_backend=be, **kw)
+        if kind == 'bst':
+            d = _bst_dir()
+            if d is None:
+                return 'no .bst files available'
+            return pybtex.bibtex.format_from_string(text, style=os.path.join(d, a))
+        db = parse_string(text, 'bibtex')
+        if kind == 'write':
+            return db.to_string(a) if b is None else db.to_bytes(a, encoding=b)
+        return _db_snapshot(parse_string(db.to_string(a), a))
+    buf = io.StringIO(); old = pybtex.io.stderr; pybtex.io.stderr = buf
+    obuf = io.StringIO(); oldo = pybtex.io.stdout; pybtex.io.stdout = obuf
+    reports = []
+    try:
+        try:
+            if cap:
+                with E.capture() as errs:
+                    reports = errs
+                    r = ('ok', body())
+            else:
+                r = ('ok', body())
+        except Exception as e:
+            r = ('raised', type(e).__name__, str(e)[:300])
+    finally:
+        pybtex.io.stderr = old; pybtex.io.stdout = oldo
+    return _dg((r, [(type(e).__name__, str(e)[:200]) for e in reports], buf.getvalue(), obuf.getvalue()))
+
+def impl_engines(arg):
+    with _Watchdog(60):
+        _reset(None)
+        out = []
+        for cid in arg:
+            out.append([cid, _engine_run(cid)])
+        _reset(None)
+        return norm(out)
+
+_FRESH = {}
+def _fresh_one(cid):
+    return cid, _engine_run(cid)
+def _fresh_engine_main():
+    """in a pristine interpreter: every requested engine call in its own forked child"""
+    import pybtex, pybtex.bibtex, pybtex.database      # imported before forking; nothing has run
+    ids = json.loads(os.environ.get('C18_FRESH_IDS', 'null')) or list(range(len(ENGINE_CALLS)))
+    ctx = mp.get_context('fork')
+    with ctx.Pool(min(NPROC, 16), maxtasksperchild=1) as pool:
+        res = pool.map(_fresh_one, ids, chunksize=1)
+    print(json.dumps(dict((str(k), v) for k, v in res)))
+def _fresh_table(ids=None):
+    want = [i for i in (ids if ids is not None else range(len(ENGINE_CALLS))) if i not in _FRESH]
+    if want and -1 not in _FRESH:
+        env = dict(os.environ); env['PYTHONHASHSEED'] = '4242'; env['C18_FRESH_IDS'] = json.dumps(want)
+        pr = subprocess.run([sys.executable, '-B', '-c', 'import props.c18 as m; m._fresh_engine_main()'], capture_output=True, text=True, env=env, timeout=900)
+        try:
+            _FRESH.update((int(k), v) for k, v in json.loads(pr.stdout.strip().splitlines()[-1]).items())
+        except Exception as e:
+            _FRESH[-1] = 'fresh interpreter failed: %r %s' % (e, pr.stderr[-300:])
+    return _FRESH
+
+def _engine_name(cid):
+    kind, dn, a, b, cap = ENGINE_CALLS[cid % len(ENGINE_CALLS)]
+    if kind == 'py':
+        s_ = 'pybtex.format_from_string(<%s>, style=%r, output_backend=%r, %r)' % (dn, a, PY_VARIANTS[b][0], PY_VARIANTS[b][1])
+    elif kind == 'bst':
+        s_ = 'pybtex.bibtex.format_from_string(<%s>, style=tests/data/%s.bst)' % (dn, a)
+    elif kind == 'write':
+        s_ = 'parse_string(<%s>).%s(%r)' % (dn, 'to_string' if b is None else 'to_bytes', a) + ('' if b is None else ' encoding=%s' % b)
+    else:
+        s_ = 'parse_string(parse_string(<%s>).to_string(%r), %r)' % (dn, a, a)
+    return s_ + (' inside errors.capture()' if cap else '')
+
+def oracle_engines(arg, out):
+    fails = []
+    first = {}
+    fresh = _fresh_table([cid % len(ENGINE_CALLS) for cid, _ in out])
+    if -1 in fresh:
+        return [('fresh-interpreter', str(fresh[-1]))]
+    for i, (cid, dg) in enumerate(out):
+        d = S(dg)
+        if cid in first and first[cid][1] != d:
+            fails.append(('engine-repeat', 'call %d repeats call %d (%s) but its output or reports differ' % (i, first[cid][0], _engine_name(cid))))
+        first.setdefault(cid, (i, d))
+        if cid % len(ENGINE_CALLS) in fresh and fresh[cid % len(ENGINE_CALLS)] != d:
+            fails.append(('engine-fresh', 'call %d (%s) gives another output or other reports than in a fresh interpreter' % (i, _engine_name(cid))))
+    return fails
+
+FUNCS[3] = ('real engines: Python engine x styles x options x back ends, BibTeX engine x shipped .bst, writers, readers', impl_engines, ('L', 'N'))
+
+_oracle_all_12 = oracle_all
+def oracle_all(fn, arg, out):
+    if fn == 3:
+        return oracle_engines(arg, out)
+    return _oracle_all_12(fn, arg, out)
+
+_canon_12 = canon
+def canon(fn, out):
+    if fn != 3:
+        return _canon_12(fn, out)
+    res = []
+    seen = []
+    for i, (cid, v) in enumerate(out):
+        if isinstance(v, int):
+            res.append([cid, v])
+        else:
+            j = next((k for k, (c2, v2) in enumerate(seen) if c2 == cid and v2 == v), i)
+            res.append([cid, j])
+        seen.append((cid, v))
+    return res
+
+_describe_12 = describe
+def describe(fn, arg):
+    if fn == 3:
+        return {'calls': [_engine_name(c) for c in arg]}
+    return _describe_12(fn, arg)
+
+_nontrivial_12 = nontrivial
+def nontrivial(fn, arg, out):
+    return len(arg) >= 2 if fn == 3 else _nontrivial_12(fn, arg, out)
+
+_gen_12 = gen
+def gen(tier, rng):
+    for x in _gen_12(tier, rng):
+        yield x
+    n = len(ENGINE_CALLS)
+    dbi = dict((d[0], k) for k, d in enumerate(ENGINE_DBS))
+    heavy = set(i for i, c in enumerate(ENGINE_CALLS) if c[0] == 'bst' and c[2] in ('IEEEtran', 'apacite', 'jurabib'))
+    def in_quick(i):
+        """the quick tier's selection: every (database, style) of the Python engine with a rotating option set, also
+        inside capture(); half of the light .bst runs, a third of the rest"""
+        kind, dn, a, b, cap = ENGINE_CALLS[i]
+        if kind == 'py':
+            return cap == 1 or b == (dbi[dn] + PY_STYLES.index(a)) % len(PY_VARIANTS)
+        if kind == 'bst':
+            return (i % 3 == 0) if i in heavy else (i % 2 == 0)
+        return i % 4 == 0 if kind == 'write' else i % 2 == 0
+    sel = [i for i in range(n) if tier == 'thorough' or in_quick(i)]
+    _fresh_table(sel)          # in the parent, before the workers are forked
+    for i in sel:                                        # the same database twice
+        yield ('engines_twice', 3, [i, i])
+    # the same style / .bst / writer on ANOTHER database first (state keyed on the style, the entry type, ...), then this one
+    groups = {}
+    for i in sel:
+        c = ENGINE_CALLS[i]
+        groups.setdefault((c[0], c[2]) if tier == 'quick' else (c[0], c[2], c[3], c[4]), []).append(i)
+    for key, ids in sorted(groups.items(), key=repr):
+        for a in ids:
+            for b in ids:
+                if ENGINE_CALLS[a][1] != ENGINE_CALLS[b][1] and (tier == 'thorough' or ENGINE_CALLS[a][4] == ENGINE_CALLS[b][4] or ENGINE_CALLS[a][0] != 'py'):
+                    if tier == 'thorough' or (ENGINE_CALLS[a][0] == 'py' and ENGINE_CALLS[a][4] == 0 and (dbi[ENGINE_CALLS[a][1]] + dbi[ENGINE_CALLS[b][1]]) % 2 == 1) or (ENGINE_CALLS[a][0] != 'py' and (a + b) % 3 == 0):
+                        yield ('engines_after_other', 3, [b, a, b, a] if tier == 'thorough' and ENGINE_CALLS[a][0] == 'py' else [b, a])
+    for k in range(12 if tier == 'quick' else 300):      # mixed histories
+        pool = [i for i in sel if i not in heavy or tier == 'thorough' or rng.random() < 0.1]
+        yield ('engines_random', 3, [rng.choice(pool) for _ in range(rng.choice([3, 5, 8]))])
